@@ -830,9 +830,15 @@ def lift_block(blk, log, meta, canary=False):
     return segs
 
 
-def assemble(template_path, canary=False, extra_shims=None, havoc_decls=None, degrade=False):
+def assemble(template_path, canary=False, extra_shims=None, havoc_decls=None, degrade=False, extra_consts=None):
     """Return (text, linetable, meta). linetable[i] describes output line i+1."""
     text = open(template_path, encoding='utf-8').read()
+    if extra_consts:
+        # crate-level constants the lifted code has started to mention (auto-lift, requested by the driver after a front-end error)
+        extra = ''.join(f'//@lift const file={f} name={n}\n//@end\n' for f, n in extra_consts)
+        m = re.search(r'(?m)^verus! \{[^\n]*\n', text)
+        if m:
+            text = text[:m.end()] + extra + text[m.end():]
     # shared contract fragments (the same lifted function + contract is verified in every unit that relies on it)
     def _frag(m):
         return open(os.path.join(VERIF, 'units', 'frag', m.group(1) + '.vrs'), encoding='utf-8').read()
